@@ -217,6 +217,41 @@ fn fam_word_boundary(d: &mut Domain, algos: &[Algo]) {
 /// after dividing out the factors below 2^16 (reference trial division) is 1 or prime, so the
 /// prime multiset is known and factor() only has trial division and a primality test to do.
 /// The trial division at the top of factor() uses the multiword long division.
+/// Every multiplier the selection can return: all products of a window of `np` consecutive
+/// primes after 2^57 with a window of `nq` consecutive primes after 2^58 (116-bit semiprimes) are
+/// given to the real `select_multiplier`; for every distinct multiplier value the first `per_k`
+/// inputs selecting it are factored. The factor base then contains the primes of the multiplier,
+/// with root 0, next to possible divisors of n.
+fn fam_multipliers(d: &mut Domain, algos: &[Algo], np: usize, nq: usize, per_k: usize) {
+    let mut ps = vec![];
+    let mut x = rm::next_prime_u64(1 << 57);
+    while ps.len() < np {
+        ps.push(x);
+        x = rm::next_prime_u64(x + 1);
+    }
+    let mut qs = vec![];
+    let mut x = rm::next_prime_u64(1 << 58);
+    while qs.len() < nq {
+        qs.push(x);
+        x = rm::next_prime_u64(x + 1);
+    }
+    let mut seen: BTreeMap<u32, usize> = BTreeMap::new();
+    for &p in &ps {
+        for &q in &qs {
+            let n = u(p) * u(q);
+            let Ok((k, _)) = guarded(|| yamaquasi::fbase::select_multiplier(n)) else { continue };
+            let c = seen.entry(k).or_insert(0);
+            if *c >= per_k {
+                continue;
+            }
+            *c += 1;
+            for &a in algos {
+                d.push(n, a, "multiplier", Some(vec![u(p), u(q)]));
+            }
+        }
+    }
+}
+
 fn fam_zero_limb(d: &mut Domain, algos: &[Algo], per_shape: usize) {
     let small = rm::primes_below(1 << 16);
     for k in [2u32, 3, 4, 7] {
@@ -998,6 +1033,8 @@ pub fn run_c03(ctx: &Ctx) -> Report {
             }
         }
     }
+    // (f3) one input per multiplier value the selection can return (116-bit semiprimes), SIQS and MPQS
+    fam_multipliers(&mut d, &[Algo::Siqs, Algo::Mpqs], ctx.pick(40, 80), ctx.pick(80, 160), ctx.pick(1, 2));
     // (g) refusal clause: above the supported size
     for k in [501u32, 512, 513, 600, 1000] {
         let p = rm::next_prime_w(&(W::ONE << (k - 1)));
@@ -1102,7 +1139,7 @@ pub fn run_c03(ctx: &Ctx) -> Report {
         rep.sample(d.cases[d.cases.len() - 1].json());
     }
     rep.nontrivial = nontrivial.len() as u64;
-    rep.rule = "cases = every n in [0,2^15]/[0,2^18] x 10 selectors; all p*q (211<=p<=q<600/2^11), p*q*r, p^k<=2^64, p^2*q x 10 selectors; edge set {2^k +- d : k in {8,16,24,31,32,40,48,52,56,63,64}, d<=64} x 10 selectors; semiprimes p*q just below 2^64, 2^128 and just above 2^63, 2^127 (5 values of p); pool-prime multisets (<=2/3) x prefixes {1,96}; primes, prime squares and smooth*prime at 64,128,256,400,448,500 bits x 10 selectors; hard composites under a 3-poll abort budget; oversize (501,512,513,600,1000-bit) primes and composites. Each case runs in a subprocess shard in this build profile; oracle = the call returns (Ok or Err). A panic (with source site), abort/signal or per-case timeout is a violation keyed by (selector, profile, site, size class). Non-trivial = distinct cases that reached an algorithm beyond trial division (>=2 factors above 8 bits, Err, or n above 64 bits). Family fbase-divisor: p*q for 14 primes p on both sides of the sieve size classes (2^8..2^17) and a prime q bringing n to 100..160 (thorough: 200) bits x {Qs,Mpqs,Siqs}: a prime of the factor base divides n.".into();
+    rep.rule = "cases = every n in [0,2^15]/[0,2^18] x 10 selectors; all p*q (211<=p<=q<600/2^11), p*q*r, p^k<=2^64, p^2*q x 10 selectors; edge set {2^k +- d : k in {8,16,24,31,32,40,48,52,56,63,64}, d<=64} x 10 selectors; semiprimes p*q just below 2^64, 2^128 and just above 2^63, 2^127 (5 values of p); pool-prime multisets (<=2/3) x prefixes {1,96}; primes, prime squares and smooth*prime at 64,128,256,400,448,500 bits x 10 selectors; hard composites under a 3-poll abort budget; oversize (501,512,513,600,1000-bit) primes and composites. Each case runs in a subprocess shard in this build profile; oracle = the call returns (Ok or Err). A panic (with source site), abort/signal or per-case timeout is a violation keyed by (selector, profile, site, size class). Non-trivial = distinct cases that reached an algorithm beyond trial division (>=2 factors above 8 bits, Err, or n above 64 bits). Family multiplier: every product of 40 x 80 (thorough 80 x 160) consecutive primes after 2^57 and 2^58 goes through the real select_multiplier and one (two) input(s) per distinct multiplier value returned are factored with Siqs and Mpqs. Family fbase-divisor: p*q for 14 primes p on both sides of the sieve size classes (2^8..2^17) and a prime q bringing n to 100..160 (thorough: 200) bits x {Qs,Mpqs,Siqs}: a prime of the factor base divides n.".into();
     rep.set(
         "outcomes",
         J::O(by_outcome.iter().map(|(k, v)| (k.clone(), J::from(*v))).collect()),
